@@ -32,6 +32,7 @@ import (
 	"sync"
 	"sync/atomic"
 	"syscall"
+	"time"
 
 	"github.com/thought-machine/please/src/cache"
 	"github.com/thought-machine/please/src/core"
@@ -88,7 +89,10 @@ const (
 	mTrace
 	mFreeze
 	mSched
+	mFree // after an infeasible switch point: no more control
 )
+
+var blockedRuns int64
 
 var workers []*worker
 var profStop = func() {}
@@ -535,6 +539,8 @@ func (w *worker) runCase(c Case, dry []string) (class, detail string, got *tree.
 }
 
 // runConc runs Store and Retrieve as two threads, one at a time, switching as the pattern says.
+// MSRS: Retrieve (own dirCache) until it has seen the entry and stops at its markDir, Store of ANOTHER dirCache on the same directory
+// up to op K, rest of the Retrieve, rest of the Store.
 // SRS: Store up to (not including) op K, whole Retrieve, rest of Store. RSR: Retrieve up to op J, whole Store, rest.
 // SRSR: Store to K, Retrieve to J, rest of Store, rest of Retrieve. RSRS: Retrieve to J, Store to K, rest of Retrieve, rest of Store.
 func (w *worker) runConc(c Case) (class, detail string, got *tree.Node) {
@@ -542,13 +548,17 @@ func (w *worker) runConc(c Case) (class, detail string, got *tree.Node) {
 	w.prepare(c)
 	emptyDir(w.bin)
 	dc := w.newCache(c.Compress)
+	dcS := dc
+	if c.Variant == "MSRS" {
+		dcS = w.newCache(c.Compress) // the Store comes from another process sharing the cache directory
+	}
 	w.c = ctl{mode: mSched, yield: make(chan int)}
 	w.c.gates[0], w.c.gates[1] = make(chan struct{}), make(chan struct{})
 	var hit bool
 	finished := [2]bool{}
 	go func() {
 		<-w.c.gates[0]
-		dc.Store(w.tGen, key, outs)
+		dcS.Store(w.tGen, key, outs)
 		w.c.yield <- 1
 	}()
 	go func() {
@@ -567,20 +577,69 @@ func (w *worker) runConc(c Case) (class, detail string, got *tree.Node) {
 		segs = []seg{{0, c.K - 1}, {1, c.J - 1}, {0, -1}, {1, -1}}
 	case "RSRS":
 		segs = []seg{{1, c.J - 1}, {0, c.K - 1}, {1, -1}, {0, -1}}
+	case "MSRS":
+		segs = []seg{{0, c.K - 1}, {0, -1}} // around them: Retrieve up to its markDir, then (after the first segment) its rest
 	default:
 		lib.Fatal("unknown pattern %q", c.Variant)
 	}
 	w.early = -1 // a thread finished before reaching its pause point: K/J beyond its length
+	if c.Variant == "MSRS" {
+		// the Retrieve runs until it blocks inside markDir: it has seen the entry and has not opened it yet
+		cache.VerifLockC12(dc)
+		w.c.cur, w.c.budget = 1, -1
+		w.c.gates[1] <- struct{}{}
+		deadline := time.Now().Add(5 * time.Second)
+		for !finished[1] && !cache.VerifWaitersC12(dc) {
+			select {
+			case <-w.c.yield:
+				finished[1] = true // no entry: an immediate miss
+			default:
+				if time.Now().After(deadline) {
+					lib.Fatal("the Retrieve neither finished nor reached markDir")
+				}
+				time.Sleep(20 * time.Microsecond)
+			}
+		}
+	}
 	for i, s := range segs {
 		if finished[s.t] {
 			continue
 		}
 		w.c.cur, w.c.budget = s.t, s.n
 		w.c.gates[s.t] <- struct{}{}
-		if <-w.c.yield == 1 {
-			finished[s.t] = true
-			if s.n >= 0 && w.early < 0 {
-				w.early = i
+		select {
+		case ev := <-w.c.yield:
+			if ev == 1 {
+				finished[s.t] = true
+				if s.n >= 0 && w.early < 0 {
+					w.early = i
+				}
+			}
+		case <-time.After(3 * time.Second):
+			// the running thread waits for something the paused thread holds (a lock): this switch point is not
+			// feasible. Let both run freely to completion - still a legal execution - and judge the end state.
+			w.c.mode = mFree
+			atomic.AddInt64(&blockedRuns, 1)
+			if c.Variant == "MSRS" {
+				lib.Fatal("a Store of another dirCache blocked while the Retrieve was held")
+			}
+			other := 1 - s.t
+			if !finished[other] {
+				w.c.gates[other] <- struct{}{}
+			}
+			for t := 0; t < 2; t++ {
+				if !finished[t] {
+					<-w.c.yield
+					finished[t] = true
+				}
+			}
+		}
+		if c.Variant == "MSRS" && i == 0 {
+			w.c.cur, w.c.budget = 1, -1
+			cache.VerifUnlockC12(dc)
+			if !finished[1] {
+				<-w.c.yield
+				finished[1] = true
 			}
 		}
 	}
@@ -734,7 +793,7 @@ func main() {
 		}
 		mu.Unlock()
 	}
-	concPatterns := []string{"SRS", "RSR"}
+	concPatterns := []string{"SRS", "RSR", "MSRS"}
 	if !r.Quick() {
 		concPatterns = append(concPatterns, "SRSR", "RSRS")
 	}
@@ -805,7 +864,10 @@ func main() {
 					}
 					// (c)
 					for _, pat := range concPatterns {
-						two := len(pat) == 4
+						two := pat == "SRSR" || pat == "RSRS"
+						if pat == "MSRS" && pre == "none" {
+							continue // without an entry the Retrieve never gets as far as its markDir
+						}
 						if two && g.idx >= len(trees)-nBig {
 							continue // the two-pause patterns are not run on the two large trees
 						}
@@ -814,7 +876,7 @@ func main() {
 							for b := 1; b <= 200; b++ {
 								cc := Case{Mode: "conc", Tree: g.t, Decl: g.decl, Compress: g.compress, Pre: pre, Variant: pat}
 								switch pat {
-								case "SRS":
+								case "SRS", "MSRS":
 									cc.K = a
 								case "RSR":
 									cc.J = a
@@ -873,7 +935,7 @@ func main() {
 		Transitions:        int(transitions),
 		TracesValidated:    int(crashRuns + concRuns),
 		Exhaustive:         int(next) > len(groups),
-		Extra: map[string]any{"trees": len(trees), "groups": len(groups), "faithful_runs": faithRuns, "crash_states": crashRuns, "groups_skipped_because_the_plain_round_trip_failed": skipped, "interleavings": concRuns,
+		Extra: map[string]any{"trees": len(trees), "groups": len(groups), "faithful_runs": faithRuns, "crash_states": crashRuns, "groups_skipped_because_the_plain_round_trip_failed": skipped, "interleavings": concRuns, "interleavings_with_an_infeasible_switch_point": blockedRuns,
 			"space": fmt.Sprintf("names %q contents %q symlink targets %q depth<=%d entries<=%d (thorough: + the 4..5-entry trees over names {a,b} content x target a depth 2) + a 70 KB file + a 3-deep tree with a 9 KB and a 5 KB file (large trees: one-pause patterns only); declarations top|leaf; compressed and not; pre-existing entry none|same|different; patterns %q",
 				sp.Names, sp.Contents, sp.Targets, sp.MaxDepth, sp.MaxEntries, concPatterns)},
 	})
